@@ -9,33 +9,12 @@
 (* other field; the temp flag never collides with another opcode.                               *)
 (* Address-space accounting of a session (Accounting): what the compiler must address for a     *)
 (* script shape of a given size, hence whether it must work or be refused.                      *)
-EXTENDS Integers, Sequences, TLC, Json, FiniteSets
-W == 65536
+EXTENDS BytecodeEnc, TLC, Json, FiniteSets
+\* composing fields by OR (recursive, hence outside BytecodeEnc, which TLAPS also reads)
 RECURSIVE BitOr(_, _, _)
 BitOr(a, b, n) == IF n = 0 THEN 0 ELSE (IF (a % 2) + (b % 2) > 0 THEN 1 ELSE 0) + 2 * BitOr(a \div 2, b \div 2, n - 1)
 Or16(a, b) == BitOr(a, b, 16)
 OrW(x, y) == [i \in 1..4 |-> Or16(x[i], y[i])]
-Zero == <<0, 0, 0, 0>>
-New(op) == <<(op % 128) * 512, 0, 0, 0>>
-TempFlag == 64
-BaseOps == 0..42                       \* NOP .. EXIT
-TempOps == {1, 4, 5, 6, 7, 8, 10, 11, 12, 13, 14, 15, 16, 17, 18, 19, 20, 21, 24}   \* those with a TMP form
-Admit(addr) == addr >= -(W \div 2) /\ addr < W \div 2
-KindShift(sel) == CASE sel = 0 -> 1 [] sel = 1 -> 8 [] sel = 2 -> 64
-EncodeSrc(sel, kind, addr) ==
-  LET a == addr % W     \* two's complement truncation (TLA+ % is non-negative)
-      h == (kind % 8) * KindShift(sel)
-  IN CASE sel = 0 -> <<h, 0, 0, a>> [] sel = 1 -> <<h, 0, a, 0>> [] sel = 2 -> <<h, a, 0, 0>>
-OpCode(w) == w[1] \div 512
-Src(w, sel) == (w[1] \div KindShift(sel)) % 8
-SignExt(n) == IF n >= W \div 2 THEN n - W ELSE n
-SrcAddr(w, sel) == SignExt(CASE sel = 0 -> w[4] [] sel = 1 -> w[3] [] sel = 2 -> w[2])
-
-\* function value: <<params, locals, entryHi, entryLo>>
-NewFunction(entry, params, locals) == <<params % W, locals % W, (entry \div W) % W, entry % W>>
-ToFunction(f) == [entry |-> f[3] * W + f[4], params |-> f[1], locals |-> f[2]]
-FunAdmit(entry, params, locals) == entry >= 0 /\ entry \div W < 32768 /\ params >= 0 /\ params < W /\ locals >= 0 /\ locals < W
-
 -----------------------------------------------------------------------------
 (* Model checking harness: each initial state is one vector *)
 CONSTANT AddrSet      \* "quick" | "thorough"
